@@ -1020,6 +1020,15 @@ def sym_str(x="", *a):
         return x
     if isinstance(x, Rat):
         return "<rat>"
+    from .abuf import ABuf as _ABuf
+    if isinstance(x, _ABuf) and not a:
+        from .abuf import ReprKey
+        c = x.canon()
+        if len(c) == 1 and c[0][0] in "DG":
+            return ReprKey(x)
+        if all(sg[0] == "L" for sg in c):
+            return str(b"".join(bytes(sg[1]) for sg in c))
+        raise Unsupported("str() of an abstract buffer")
     if a:
         return str(x, *a)
     return str(x)
